@@ -8,4 +8,5 @@ INVARIANT NeverRejectsValid
 INVARIANT OffMeansOff
 INVARIANT OnRejectsInvalid
 PROPERTY InvalidAssignKeeps
+PROPERTY CallsKeepSwitch
 CHECK_DEADLOCK FALSE
